@@ -7,6 +7,7 @@ import (
 	"bytes"
 	"fmt"
 	"math"
+	"path/filepath"
 	"reflect"
 	"sort"
 	"strings"
@@ -126,7 +127,12 @@ func dumpDiameter() {
 	}
 	sb.WriteString(strings.Join(rows, ",\n"))
 	sb.WriteString("\n]\n\n")
-	fmt.Fprintf(&sb, "def reInterface : Nat := %d\n\nend Chf.Gen\n", charging_code.Re_interface)
+	fmt.Fprintf(&sb, "def reInterface : Nat := %d\n\n", charging_code.Re_interface)
+	// 3. the CHF's client functions return the decoded answer untouched (go/ast, see astPassThrough)
+	sb.WriteString("/-- (client function, the decoded answer is returned as decoded: nothing between Unmarshal and return) -/\n")
+	fmt.Fprintf(&sb, "def clientPassThrough : List (String × Bool) := [(%q, %v), (%q, %v)]\n\nend Chf.Gen\n",
+		"internal/rating.SendServiceUsageRequest", astPassThrough(filepath.Join(repoRoot(), "internal", "rating", "rating.go"), "SendServiceUsageRequest"),
+		"internal/abmf.SendAccountDebitRequest", astPassThrough(filepath.Join(repoRoot(), "internal", "abmf", "abmf.go"), "SendAccountDebitRequest"))
 	fmt.Print(sb.String())
 }
 
